@@ -46,3 +46,7 @@ neg "dispatcher leaves the vehicle of a trip update out" r13-2-3 's/\t\ttrip, ve
 neg "dispatcher form: id-bearing vehicle reaches the unkeyed list" r13-2-3 's/if vehicle\.ID != nil \{\n\t\t\t\tif _, ok := vehiclesByID/if vehicle.ID != nil \&\& vehicle.ID.ID != "" {\n\t\t\t\tif _, ok := vehiclesByID/' realtime.go C07
 neg "tracker never replaces the set of active trips" r13-3-6 's/\tt\.active = newActive\n/\t_ = newActive\n/' journal/journal.go C15
 neg "tracker deletes finished trips from its table" r13-3-6 's/\t\t\tt\.trips\[tripUID\]\.markPast\(createdAt\)\n/\t\t\tt.trips[tripUID].markPast(createdAt)\n\t\t\tif len(t.trips) > 1000000 {\n\t\t\t\tdelete(t.trips, tripUID)\n\t\t\t}\n/' journal/journal.go C05
+neg "inheritance predicate forgets the parent test" r14-1-2 's/return stop\.Parent != nil \&\&\n\t\tstop\.Parent\.Type == StopType_Station \&\&\n\t\tstop\.WheelchairBoarding == WheelchairBoarding_NotSpecified/return stop.WheelchairBoarding == WheelchairBoarding_NotSpecified/' static.go C05 C10
+neg "pair helper leaves the missing departure at zero" r14-1-3 's/return stopTimePair\{arrival: arrival, departure: arrival\}, true/return stopTimePair{arrival: arrival}, true/' static.go C10
+neg "fill helper answers the invalid departure"  r14-5-2 's/return arrival, arrival, true/return arrival, departure, true/' static.go C10
+neg "caller stores the pair's fields crosswise"  r14-1-3 's/ArrivalTime:           times\.arrival,/ArrivalTime:           times.departure,/' static.go C10
